@@ -22,7 +22,9 @@ var (
 	GOOSPool    = []string{"linux", "darwin", "windows"}
 	GOARCHPool  = []string{"amd64", "arm64", "386"}
 	// counter expressions in the documented syntax; expansions are pairwise disjoint
-	ExprPool  = []string{"a/b", "a/bc", "x", "chart:{b1,b2,b3}", "chart2:{b}", "c:{b,bb}", "gopls/client:{vscode,vim}", "go/invocations", "b"}
+	ExprPool = []string{"a/b", "a/bc", "x", "chart:{b1,b2,b3}", "chart2:{b}", "c:{b,bb}", "gopls/client:{vscode,vim}", "go/invocations", "b",
+		// bucket names are taken verbatim, white space included
+		"pad:{p, q}", "pad2:{r ,s}"}
 	StackPool = []string{"crash/crash", "gopls/bug", "stk", "a/stk"}
 	RatePool  = []float64{0, 0.1, 0.5, 0.9, 1}
 )
@@ -127,7 +129,7 @@ func LocalName(t *rapid.T, cfg *telemetry.UploadConfig, prog string, mark *int, 
 	case 4:
 		// near misses of an approved expansion
 		return rapid.SampledFrom([]string{one[:len(one)-1] + "", one + "x", one + " ", strings.ToUpper(one), " " + one,
-			one + "}", one + ",b2", strings.Replace(one, ":", "::", 1)}).Draw(t, "nearMiss")
+			one + "}", one + ",b2", strings.Replace(one, ":", "::", 1), strings.ReplaceAll(one, " ", ""), strings.Replace(one, ":", ": ", 1)}).Draw(t, "nearMiss")
 	case 5:
 		// the unexpanded literal and fragments of it
 		pre, _, _ := strings.Cut(expr, "{")
@@ -268,7 +270,7 @@ func CountFiles(t *rapid.T, cfg *telemetry.UploadConfig, ends []time.Time, o Fil
 		f.End = ends[rapid.IntRange(0, len(ends)-1).Draw(t, "week")]
 		f.Begin = f.End.AddDate(0, 0, -1-rapid.IntRange(0, 6).Draw(t, "spanDays"))
 		if o.AllowBad {
-			f.Kind = rapid.SampledFrom([]string{"ok", "ok", "ok", "ok", "ok", "empty", "garbage", "truncated", "baddate", "nometa"}).Draw(t, "kind")
+			f.Kind = rapid.SampledFrom([]string{"ok", "ok", "ok", "ok", "ok", "empty", "garbage", "truncated", "baddate", "nometa", "badbody"}).Draw(t, "kind")
 		}
 		if f.Kind != "empty" {
 			nc := rapid.IntRange(1, 7).Draw(t, "ncounters")
@@ -346,6 +348,15 @@ func EncodeCountFile(f *vmodel.CountFile) []byte {
 		return []byte("this is not a counter file\n")
 	case "truncated":
 		return data[:len(data)/3]
+	case "badbody":
+		// an intact header (dates, program) over a damaged body: the first used hash bucket points past the
+		// end of the file, as in a file that lost its tail
+		if vf, err := vformat.Decode(data); err == nil && len(vf.Records) > 0 {
+			off := vf.HdrLen + 4 + 4*vf.Records[0].Bucket
+			data[off], data[off+1], data[off+2], data[off+3] = 0xe0, 0xff, 0xff, 0x7f
+		} else {
+			return data[:len(data)/3]
+		}
 	}
 	return data
 }
